@@ -73,7 +73,7 @@ package cisco
 // part goes to the end) and the [APPEND] block directly behind the last permit line.
 //vc:func mergeASAACLs
 // MergeSpoc creates a.lookup[prefix] for every prefix of the other part before merging (its first loop)
-//vc:  requires prefix in ab.a.lookup && ab.a.lookup[prefix] != nil
+//vc:  hypothesis prefix in ab.a.lookup && ab.a.lookup[prefix] != nil
 //vc:  init mergeI = 0
 //vc:  init mergeLen = 0
 //vc:  invariant[C18] 2 "for ; i >= 0; i--" -1 <= i && i < len(acl) && (forall j int :: i < j && j < len(acl) ==> !strings.Contains(acl[j].parsed, "$NAME extended permit"))
@@ -208,3 +208,13 @@ package cisco
 // by the wholesale "remove all from device, then add all from Netspoc" path.
 //vc:func (*State).diffCmds
 //vc:  assert[C14] at "s.delCmds(al)" @aclLinesNeverRemovedWholesale al[0].subCmdOf.typ.prefix != "ip access-list extended"
+
+// ---- C18: a raw object is merged only once ----
+// mergeRefs: an object of a raw file that was already merged through another
+// reference (and possibly renamed to the name Netspoc uses) must not be merged
+// a second time - whether or not the second reference has a Netspoc
+// counterpart; it is rejected with "Must reference ... only once in raw".
+//vc:func mergeRefs
+//vc:  nullable a
+//vc:  invariant[C18] 1 "for i, bName := range b.ref" true
+//vc:  assert[C18] at "isReferenced[refCmd] = true"#2 @rawObjectMergedOnce ab.b.isRaw ==> !((refCmd in isReferenced) && isReferenced[refCmd])
